@@ -19,7 +19,7 @@ structure Inv (s : St) : Prop where
   nworkersSum : s.nworkers = sumTo s.na (fun a => b2n (s.worker a))
   nsleepSum : s.nsleep = sumTo s.na (fun a => b2n (s.asleep a))
   suspendedAll : s.ph = .suspended → s.nsleep = s.nworkers
-  awake : s.ph ≠ .suspending → s.ph ≠ .suspended → s.ph ≠ .resuming → s.nsleep = 0
+  awake : s.ph ≠ .suspending → s.ph ≠ .suspended → s.ph ≠ .resuming → s.ph ≠ .stopping → s.nsleep = 0
   stoppingDrained : (s.ph = .stopping ∨ s.ph = .none) → s.cnt = 0
   stopPc : (s.spc = .drained ∨ s.spc = .waited ∨ s.spc = .halted) ↔ s.ph = .stopping
   stopFin : s.spc ≠ .out → s.spc ≠ .entered → s.fin = true
@@ -29,9 +29,10 @@ structure Inv (s : St) : Prop where
   outStopper : s.spc = .out → s.stopper = none
   stopperNotWorker : ∀ a, s.stopper = some a → s.worker a = false
   cfgWorkers : s.ph ≠ .none → s.ph ≠ .starting → s.nworkers = s.cfg.th
+  stopperBound : ∀ a, s.stopper = some a → a < s.na
 
 theorem inv_init (na no : Nat) : Inv (init na no) := by
-  refine ⟨?_, ?_, ?_, ?_, ?_, ?_, ?_, ?_, ?_, ?_, ?_, ?_, ?_, ?_, ?_, ?_, ?_, ?_, ?_, ?_, ?_⟩ <;>
+  refine ⟨?_, ?_, ?_, ?_, ?_, ?_, ?_, ?_, ?_, ?_, ?_, ?_, ?_, ?_, ?_, ?_, ?_, ?_, ?_, ?_, ?_, ?_⟩ <;>
     simp [init, nlive, b2n, sumTo_eq_zero]
 
 attribute [local grind] b2n
@@ -39,14 +40,14 @@ attribute [local grind] b2n
 set_option hygiene false in
 macro "life_step" : tactic => `(tactic| (
   simp only [step] at h
-  obtain ⟨h1,h1b,h2,h3,h3b,h4,h5,h6,h7,h8,h9,h10,h11,h12,h13,h14,h15,h16,h17,h18,h19⟩ := hi
+  obtain ⟨h1,h1b,h2,h3,h3b,h4,h5,h6,h7,h8,h9,h10,h11,h12,h13,h14,h15,h16,h17,h18,h19,h20⟩ := hi
   simp only [nlive] at h1
   repeat' split at h
   all_goals first | (simp at h; done) | skip
   all_goals (
     simp only [Option.some.injEq] at h
     subst h
-    refine ⟨?_, ?_, ?_, ?_, ?_, ?_, ?_, ?_, ?_, ?_, ?_, ?_, ?_, ?_, ?_, ?_, ?_, ?_, ?_, ?_, ?_⟩ <;> (try dsimp only [nlive])
+    refine ⟨?_, ?_, ?_, ?_, ?_, ?_, ?_, ?_, ?_, ?_, ?_, ?_, ?_, ?_, ?_, ?_, ?_, ?_, ?_, ?_, ?_, ?_⟩ <;> (try dsimp only [nlive])
   )
   all_goals first
     | assumption
@@ -80,14 +81,14 @@ theorem step_inv_seenCfg (s s' : St) (a t p : Nat) (hi : Inv s) (h : step s (.se
 set_option hygiene false in
 macro "life_step_sum" : tactic => `(tactic| (
   simp only [step] at h
-  obtain ⟨h1,h1b,h2,h3,h3b,h4,h5,h6,h7,h8,h9,h10,h11,h12,h13,h14,h15,h16,h17,h18,h19⟩ := hi
+  obtain ⟨h1,h1b,h2,h3,h3b,h4,h5,h6,h7,h8,h9,h10,h11,h12,h13,h14,h15,h16,h17,h18,h19,h20⟩ := hi
   simp only [nlive] at h1
   split at h
   case isFalse => simp at h
   rename_i hg
   simp only [Option.some.injEq] at h
   subst h
-  refine ⟨?_, ?_, ?_, ?_, ?_, ?_, ?_, ?_, ?_, ?_, ?_, ?_, ?_, ?_, ?_, ?_, ?_, ?_, ?_, ?_, ?_⟩ <;> (try dsimp only [nlive])
+  refine ⟨?_, ?_, ?_, ?_, ?_, ?_, ?_, ?_, ?_, ?_, ?_, ?_, ?_, ?_, ?_, ?_, ?_, ?_, ?_, ?_, ?_, ?_⟩ <;> (try dsimp only [nlive])
   all_goals first
     | assumption
     | (intro u; grind [upd])
@@ -133,10 +134,10 @@ theorem step_inv_stopExit (s s' : St) (a r : Nat) (hi : Inv s) (h : step s (.sto
     cases hc : s.cur b with
     | none => rfl
     | some o => have := (hi.curLive b o hc).1; rw [hd.2.2.2 o] at this; cases this
-  obtain ⟨h1,h1b,h2,h3,h3b,h4,h5,h6,h7,h8,h9,h10,h11,h12,h13,h14,h15,h16,h17,h18,h19⟩ := hi
+  obtain ⟨h1,h1b,h2,h3,h3b,h4,h5,h6,h7,h8,h9,h10,h11,h12,h13,h14,h15,h16,h17,h18,h19,h20⟩ := hi
   simp only [Option.some.injEq] at h
   subst h
-  refine ⟨?_, ?_, ?_, ?_, ?_, ?_, ?_, ?_, ?_, ?_, ?_, ?_, ?_, ?_, ?_, ?_, ?_, ?_, ?_, ?_, ?_⟩ <;> (try dsimp only [nlive])
+  refine ⟨?_, ?_, ?_, ?_, ?_, ?_, ?_, ?_, ?_, ?_, ?_, ?_, ?_, ?_, ?_, ?_, ?_, ?_, ?_, ?_, ?_, ?_⟩ <;> (try dsimp only [nlive])
   all_goals first
     | assumption
     | (intro u; simp [hcur]; done)
